@@ -50,6 +50,8 @@ def {name}(label="stage", retries=3):
 '''
 EMITS = ["class", "function", "argparse", "pydantic", "json_schema", "sqlalchemy", "sqlalchemy_table", "sqlalchemy_hybrid"]
 FILTERS = ["none", "blacklist_alpha", "whitelist_alpha", "blacklist_sub"]
+# the exposed module is the sub-package c20pkg.sub itself, and the lists name it: in neither / one / both lists
+EXPOSED_FILTERS = ["exposed_none", "exposed_blacklisted", "exposed_whitelisted", "exposed_other_whitelisted", "exposed_in_both", "exposed_in_both_and_more", "exposed_whitelisted_other_blacklisted"]
 PKG = "c20pkg"
 
 
@@ -93,6 +95,8 @@ def snapshot(root):
 
 
 def cases(tier, seed):
+    for depth, emit, recursive, flt, dry in itertools.product((2, 3), EMITS if tier != "quick" else ("class", "function", "sqlalchemy"), (False, True), EXPOSED_FILTERS, (False, True)):
+        yield dict(depth=depth, partial_all=False, emit=emit, recursive=recursive, filter=flt, dry_run=dry, out_exists=False, sqlalchemy_submodule=False)
     depths = (1, 2, 3)
     for depth, partial_all, emit, recursive, flt, dry, out_exists in itertools.product(depths, (False, True), EMITS, (False, True), FILTERS, (True, False), (False, True)):
         if flt == "blacklist_sub" and depth < 2:
@@ -152,6 +156,12 @@ def _run(case):
             argv += ["--whitelist", PKG + ".alpha"]
         elif case["filter"] == "blacklist_sub":
             argv += ["--blacklist", PKG + ".sub"]
+        sub = PKG + ".sub"
+        if case["filter"] in EXPOSED_FILTERS:
+            argv[2] = sub  # -m c20pkg.sub
+            argv += {"exposed_none": [], "exposed_blacklisted": ["--blacklist", sub], "exposed_whitelisted": ["--whitelist", sub], "exposed_other_whitelisted": ["--whitelist", PKG + ".other"],
+                     "exposed_in_both": ["--blacklist", sub, "--whitelist", sub], "exposed_in_both_and_more": ["--blacklist", sub, "--blacklist", PKG + ".zzz", "--whitelist", PKG + ".other", "--whitelist", sub],
+                     "exposed_whitelisted_other_blacklisted": ["--blacklist", PKG + ".zzz", "--whitelist", sub]}[case["filter"]]
         from contextlib import redirect_stderr, redirect_stdout
 
         if case["out_exists"] == "populated":
@@ -237,7 +247,11 @@ def _run(case):
                     v("filtered_module_emitted", "no output for blacklisted %s.sub" % PKG, [g for g in gen_names if "sub" in g][:4])
                 if case["filter"] == "whitelist_alpha" and any(os.path.basename(g) in ("beta.py", "gamma.py") for g in gen_names):
                     v("filtered_module_emitted", "only whitelisted %s.alpha" % PKG, [g for g in gen_names if "beta" in g or "gamma" in g])
-                if case["filter"] == "none" and not gen_py:
+                # (a recursive run also visits c20pkg.sub.deep, which is a module of its own and named in no list: only the exposed module's own output counts)
+                own = sorted(g for g in gen_names if g.endswith(".py") and not g.startswith("deep" + os.sep))
+                if case["filter"] in ("exposed_blacklisted", "exposed_in_both", "exposed_in_both_and_more", "exposed_other_whitelisted") and own:
+                    v("filtered_module_emitted", "no output: the exposed module %s.sub is blacklisted (or not in the whitelist)" % PKG, own[:6])
+                if case["filter"] in ("none", "exposed_none", "exposed_whitelisted", "exposed_whitelisted_other_blacklisted") and not gen_py:
                     v("nothing_generated", "generated modules under the output directory", "none")
         return dict(outcome=("raises" if raised is not None else "ok") + ("+diff" if viol else ""), violations=viol, n_created=len(created))
     finally:
@@ -260,7 +274,7 @@ def worker_init(tier, seed):
 def describe(tier):
     return dict(
         rule="package trees of depth 1..3 (modules with a class and a function, re-exported through __init__/__all__, complete or partial __all__) placed on sys.path x "
-        "8 emit kinds x --emit-sqlalchemy-submodule (SQLAlchemy kinds) x recursive x {no filter, blacklist alpha, whitelist alpha, blacklist sub-package} x dry-run x "
+        "8 emit kinds x --emit-sqlalchemy-submodule (SQLAlchemy kinds) x recursive x {no filter, blacklist alpha, whitelist alpha, blacklist sub-package, and, exposing the sub-package, that module named in neither / one / both lists} x dry-run x "
         "output directory pre-existing or not; every run in a forked child, cwd inside the scratch root, a decoy sibling directory next to it; a case = one exmod invocation",
         bounds=dict(depths=[1, 2, 3], emits=EMITS, filters=FILTERS),
         exhaustive=True,
